@@ -77,22 +77,25 @@ def check_chain(n):
         calls = []
 
         class F:
-            def __init__(self, k):
-                self.k = k
+            def __init__(self, name, k):
+                self.name, self.k = name, k
 
             async def get_targets(self, job, ts):
                 calls.append((self.k, [targets.index(t) for t in ts]))
                 return [t for t in ts if targets.index(t) in keep[self.k]]
 
         sch = DefaultScheduler.__new__(DefaultScheduler)
-        sch.binding_filter_map = {f"f{k}": F(k) for k in range(nf)}
+        # the scheduler instantiates the filters itself, from their configuration: several filters of ONE type, told apart by name
+        import streamflow.scheduling.scheduler as scheduler_module
+        scheduler_module.binding_filter_classes["verif-fake"] = F
+        sch.binding_filter_map = {}
         order = []
 
         async def _process_target(target, job_context, hardware_requirement):
             order.append(targets.index(target))
 
         sch._process_target = _process_target
-        bc = SimpleNamespace(targets=list(targets), filters=[FilterConfig(name=f"f{k}", type="matching", config={}) for k in range(nf)])
+        bc = SimpleNamespace(targets=list(targets), filters=[FilterConfig(name=f"f{k}", type="verif-fake", config={"k": k}) for k in range(nf)])
         asyncio.run(sch.schedule(mk_job({"p": "a", "q": "x"}), bc, None))
         cur = list(range(len(targets)))
         want_calls = []
